@@ -229,5 +229,14 @@ func genImportFile(t *tape.Tape, cls string, pkg string) ImportFile {
 	}
 	add("}")
 	out.Text = strings.Join(lines, "\n") + "\n"
+	// byte-level variety: the frame condition speaks about bytes, so line terminators matter
+	switch t.Pick(8) {
+	case 0:
+		out.Text = strings.TrimSuffix(out.Text, "\n") // no newline at end of file
+	case 1:
+		out.Text = strings.ReplaceAll(out.Text, "\n", "\r\n") // CRLF
+	case 2:
+		out.Text += "\n\n" // trailing blank lines
+	}
 	return out
 }
